@@ -872,6 +872,17 @@ func Substr(s, off, n *Term) *Term {
 	if off.isIv(0) && n == Len(s) {
 		return s
 	}
+	// substr(a ++ rest, 0, len(a)) = a
+	if s.Op == "str.++" && off.isIv(0) && n == Len(s.Args[0]) {
+		return s.Args[0]
+	}
+	// substr(a ++ b, 0, len(a ++ b) - len(b)) = a   (TrimSuffix shape)
+	if s.Op == "str.++" && off.isIv(0) && len(s.Args) >= 2 {
+		last := s.Args[len(s.Args)-1]
+		if n == Sub(Len(s), Len(last)) {
+			return Concat(s.Args[:len(s.Args)-1]...)
+		}
+	}
 	// substr of a concat with constant offsets falling on a boundary
 	if s.Op == "str.++" && off.isI() && n.isI() {
 		// try to peel leading constant parts
@@ -1342,6 +1353,15 @@ func Script(asserts []*Term) (string, []*Term) {
 		named[t.ID] = true
 		if t.Op == "str.len" {
 			fmt.Fprintf(&sb, "(assert (<= t%d %s))\n", t.ID, MaxStrLen.String())
+		}
+		if t.Op == "uf" {
+			// facts the simplifier already uses must also be known to the solver
+			if n, ok := ufFixedLen[t.SV]; ok {
+				fmt.Fprintf(&sb, "(assert (= (str.len t%d) %d))\n", t.ID, n)
+			}
+			if t.SV == "hex" {
+				fmt.Fprintf(&sb, "(assert (= (str.len t%d) (* 2 (str.len %s))))\n", t.ID, smtExprRef(t.Args[0], named))
+			}
 		}
 		if t.Op == "uf" {
 			syms = append(syms, t)
